@@ -84,3 +84,41 @@ def py_revcomp(b: bytes):
 
 def py_index_to_kmer(i: int, k: int):
     return bytes(NUC[(i >> (2 * (k - 1 - j))) & 3] for j in range(k))
+
+
+# ---- signature spec (C01 / C06)
+
+def occurrences(cells, k, prefix):
+    """All (condition, index term) pairs of the property text: on the case-folded forward strand and on its reverse
+    complement, at every position q with q + |prefix| + k <= n: the prefix occurs at q, the k following bytes are
+    ACGT, and the value is their base-4 index."""
+    n, p = len(cells), len(prefix)
+    fw = [fold(c) for c in cells]
+    rc = revcomp(fw)
+    out = []
+    for strand_name, x in (('+', fw), ('-', rc)):
+        for q in range(0, n - p - k + 1):
+            pre = [x[q + t] == prefix[t] for t in range(p)]
+            kmer = x[q + p: q + p + k]
+            cond = z3.And(*pre, valid_kmer(kmer))
+            out.append((cond, kmer_index(kmer), strand_name, q))
+    return out
+
+
+def index_dtype_str(k):
+    return 'u1' if k <= 4 else 'u2' if k <= 8 else 'u4' if k <= 16 else 'u8'
+
+
+def py_signature(k, prefix: bytes, seqs):
+    """Concrete reference signature (sorted list of ints)."""
+    out = set()
+    p = len(prefix)
+    for s in seqs:
+        f = bytes(s).upper()
+        for x in (f, py_revcomp(f)):
+            for q in range(0, len(x) - p - k + 1):
+                if x[q:q + p] == prefix:
+                    v = py_kmer_index(x[q + p:q + p + k])
+                    if v is not None:
+                        out.add(v)
+    return sorted(out)
